@@ -399,7 +399,7 @@ fn corrupt_one_at<T: Serialize + Deserialize, S: Src>(s: &mut S, v: &T, ver: u32
 /// C06 (bounded): corrupted encodings of library containers never panic and never yield over-long results.
 pub fn malformed_library<S: Src>(s: &mut S) {
     use std::collections::*;
-    match s.below(26) {
+    match s.below(35) {
         0 => corrupt_one(s, &"ab".to_string(), "String"),
         1 => corrupt_one(s, &"é".to_string(), "String (2-byte char)"),
         2 => corrupt_one(s, &vec![1u16, 2], "Vec<u16>"),
@@ -436,6 +436,14 @@ pub fn malformed_library<S: Src>(s: &mut S) {
             };
             corrupt_one_at(s, &Schema::Trait(false, def), 2, "Schema::Trait (schema section, format 2)")
         }
+        26 => corrupt_one(s, &arrayvec::ArrayString::<4>::from("héj").unwrap(), "ArrayString<4>"),
+        27 => corrupt_one(s, &(3u32..9u32), "Range<u32>"),
+        28 => corrupt_one(s, &std::path::PathBuf::from("a/b"), "PathBuf"),
+        29 => corrupt_one(s, &std::borrow::Cow::<str>::Owned("cow".into()), "Cow<str>"),
+        30 => corrupt_one(s, &std::net::SocketAddr::V6(std::net::SocketAddrV6::new(std::net::Ipv6Addr::LOCALHOST, 443, 1, 2)), "SocketAddr V6"),
+        31 => corrupt_one(s, &(std::time::SystemTime::UNIX_EPOCH + std::time::Duration::new(1, 5)), "SystemTime"),
+        32 => corrupt_one(s, &vec![('a', true), ('€', false)], "Vec<(char,bool)>"),
+        33 => corrupt_one(s, &[(1u8, vec![2u16]), (3u8, vec![])].into_iter().collect::<BTreeMap<u8, Vec<u16>>>(), "BTreeMap<u8,Vec<u16>>"),
         _ => {
             let sch = savefile::get_schema::<(u8, Vec<Option<String>>, [u16; 2])>(0);
             corrupt_one_at(s, &sch, 2, "Schema of (u8,Vec<Option<String>>,[u16;2]) (schema section, format 2)")
